@@ -1,19 +1,39 @@
 /-
 Model M15b — the local cache (`crates/core/src/backend/cache.rs`: `Cache`, `CachedBackend`), **as repaired** by the
-two `fix:` commits recorded in `known_findings.d/C19.json` (cached `read_partial` returns an error instead of
-panicking when the range exceeds the file; the cache listing only takes properly placed files for entries).
+`fix:` commits recorded in `known_findings.d/C19.json` (cached `read_partial` returns an error instead of
+panicking when the range exceeds the file; the cache listing only takes properly placed files for entries; the cache
+listing follows symlinks).
 Executable; imports only `Model/Backends.lean` (file-system state `FS`, `fget/fput/fdel`, `FileType`, `SpecMap`).
 
 Correspondence with the Rust code:
 * `isCacheable`         — `FileType::is_cacheable` (`backend.rs`): snapshot and index files.
 * `cpath` / `ctmp`      — `Cache::path` = `<type dir>/<hex[0..2]>/<hex>`; temp name `<hex>-tmp-` in the same directory.
-* `cReadFull`           — `Cache::read_full`: `fs::read`, `NotFound` ⇒ `Ok(None)`; **no size check**: whatever is there is served.
+* cache directory state — regular files (`CD.files : FS`) plus non-file objects planted in the cache directory, e.g. at the entry
+                          path of an id: `dirs`, the paths at which a **directory** sits (`hasDir`) — no operation of `cache.rs`
+                          removes or replaces a directory, so `dirs` is constant — and `CD.links`, the paths at which a
+                          **symlink** sits (`hasLink`), dangling (target in a non-existing directory) or resolving to a
+                          regular file outside the cache directory — `remove_file` and a `rename` onto it remove it, reads
+                          and `open(create|truncate)` follow it.  A file recorded at a path of `dirs`/`links` (impossible on a real file
+                          system) is invisible to every operation.  For reads and the listing a dangling symlink is like
+                          nothing at all (`NotFound`; not `is_file`).  `parentObj`: a regular file or a dangling symlink
+                          where a parent directory of the entry path (`<type>`, `<type>/<xx>`) belongs — every cache
+                          operation on the ids below fails (`ENOTDIR` / `ENOENT`; `create_dir_all` fails), all errors are
+                          only logged.
+* `cReadFull`           — `Cache::read_full`: `fs::read`, `NotFound` ⇒ `Ok(None)` (miss); a directory ⇒ `Err` (`EISDIR`);
+                          **no size check**: whatever file is there is served.  `CachedBackend::read_full` logs an error and
+                          goes on like after a miss (`readFullThrough`).
 * `cReadPartial`        — `Cache::read_partial`: `NotFound` ⇒ miss; `seek` + `read_exact` ⇒ hit, or error when fewer than
-                          `length` bytes remain (a truncated entry) — `CachedBackend::read_partial` treats an error like a miss.
-* `cWrite`              — `Cache::write_bytes`: write `<hex>-tmp-`, rename to `<hex>`.
-* `cRemove`             — `Cache::remove` (`fs::remove_file`; all callers only log its error).
-* `cEntry` / `cList`    — `Cache::list_with_size`: regular files below `<type dir>` whose name is `L` **lower-case** hex
-                          characters and (fix) which lie at depth 2 in the directory named by their first two characters.
+                          `length` bytes remain (a truncated entry); a directory ⇒ error (`EISDIR` on `read`), but a hit with no
+                          bytes for `length = 0` (`read_exact` of an empty buffer does not call `read`).
+                          `CachedBackend::read_partial` treats an error like a miss (`readPartialThrough`).
+* `cWrite`              — `Cache::write_bytes`: write `<hex>-tmp-`, rename to `<hex>` (`cWriteFile`); a directory at the temp
+                          path: nothing written; a directory at the entry path: `rename` fails, **the temp file stays**.  All
+                          callers only log the error.
+* `cRemove`             — `Cache::remove` (`fs::remove_file`, fails on a directory; all callers only log its error).
+* `cEntry` / `cLinkEntry` / `cList` — `Cache::list_with_size`: regular files (`is_file`: not directories) below `<type dir>`
+                          whose name is `L` **lower-case** hex characters and (fix b1c5f4b) which lie at depth 2 in the directory
+                          named by their first two characters; (fix, wave T4) `follow_links(true)`: a symlink that resolves to a
+                          regular file is an entry too, with that file's size.
 * `removeNotInList`     — `Cache::remove_not_in_list`: a cache entry stays iff the repository listing has the same id with the
                           same size.  (Code: one loop over the listing, one over the rest of a `HashMap`; the removals act on
                           distinct paths and, after the fix, cannot fail with `NotFound`, so the order is immaterial.)
@@ -39,30 +59,138 @@ def isCacheName (L : Nat) (n : Name) : Bool := n.length = L && n.all (fun c => l
 def cpath (t : FileType) (id : Name) : Path := [t.dirname, id.take 2, id]
 def ctmp (t : FileType) (id : Name) : Path := [t.dirname, id.take 2, id ++ tmpSuffix]
 
-def cReadFull (c : FS) (t : FileType) (id : Name) : Option Bytes := fget c (cpath t id)
+/-- `dirs`: the paths of the cache directory at which a DIRECTORY sits (a non-file object planted there; no operation
+of `cache.rs` ever removes or replaces one: `remove_file` and `rename` onto it fail, the listing skips it). -/
+def hasDir (dirs : List Path) (p : Path) : Bool := dirs.contains p
 
+/-- The part of the cache directory that operations change: regular files, and SYMLINKS (`links`: path ↦ what the link
+resolves to — `none`: dangling, its target lies in a directory that does not exist, so nothing can be read or created
+through it; `some b`: a regular file **outside** the cache directory holding `b`, one file per link). -/
+structure CD where
+  files : FS
+  links : List (Path × Option Bytes) := []
+
+def lget : List (Path × Option Bytes) → Path → Option (Option Bytes)
+  | [], _ => none
+  | (q, v) :: rest, p => if q = p then some v else lget rest p
+
+def ldel : List (Path × Option Bytes) → Path → List (Path × Option Bytes)
+  | [], _ => []
+  | (q, v) :: rest, p => if q = p then ldel rest p else (q, v) :: ldel rest p
+
+def hasLink (c : CD) (p : Path) : Bool := (lget c.links p).isSome
+
+/-- `remove_file` / `rename` onto a symlink: the link is gone -/
+def unlink (c : CD) (p : Path) : CD := { c with links := ldel c.links p }
+
+/-- what `open(p)` finds as a regular file (symlinks are followed): the bytes, if any -/
+def entryBytes (c : CD) (p : Path) : Option Bytes :=
+  match lget c.links p with
+  | some v => v
+  | none => fget c.files p
+
+/-- a non-directory at `p` in the middle of a path: `some true` — a regular file (or a link to one): `ENOTDIR`;
+`some false` — a dangling symlink: `ENOENT` -/
+def parentAt (c : CD) (p : Path) : Option Bool :=
+  match lget c.links p with
+  | some none => some false
+  | some (some _) => some true
+  | none => if (fget c.files p).isSome then some true else none
+
+/-- What sits where a PARENT directory of the entry path (`<type>` or `<type>/<xx>`) belongs, if it is not a directory.
+`none` — nothing in the way.  Otherwise nothing can exist below, `create_dir_all` fails, every open / remove fails. -/
+def parentObj (c : CD) (t : FileType) (id : Name) : Option Bool :=
+  match parentAt c [t.dirname] with
+  | some b => some b
+  | none => parentAt c [t.dirname, id.take 2]
+
+/-- outcome of a cache read: `Ok(Some(data))` / `Ok(None)` / `Err(_)` -/
 inductive PRes where
   | hit (b : Bytes)
   | miss
   | error
   deriving DecidableEq, Repr
 
-def cReadPartial (c : FS) (t : FileType) (id : Name) (off len : Nat) : PRes :=
-  match fget c (cpath t id) with
-  | none => .miss
-  | some d => if len = 0 ∨ off + len ≤ d.length then .hit ((d.drop off).take len) else .error
+/-- `Cache::read_full`: `fs::read` — a directory at the path: `EISDIR` (an error, not `NotFound`); a dangling symlink:
+`ENOENT` = `NotFound`, a miss; a symlink to a file: that file. -/
+def cReadFull (dirs : List Path) (c : CD) (t : FileType) (id : Name) : PRes :=
+  if parentObj c t id = some true then .error       -- `ENOTDIR`
+  else if parentObj c t id = some false then .miss  -- `ENOENT` = `NotFound`
+  else if hasDir dirs (cpath t id) then .error
+  else match entryBytes c (cpath t id) with
+    | some d => .hit d
+    | none => .miss
 
-def cWrite (c : FS) (t : FileType) (id : Name) (d : Bytes) : FS :=
+/-- what a cache read can serve: the regular file at (or linked from) the entry path, unless a directory sits there or
+the path cannot be resolved -/
+def cHit (dirs : List Path) (c : CD) (t : FileType) (id : Name) : Option Bytes :=
+  if (parentObj c t id).isSome || hasDir dirs (cpath t id) then none else entryBytes c (cpath t id)
+
+/-- `Cache::read_partial`: on a directory `File::open` and `seek` succeed and `read_exact` fails with `EISDIR` — except
+for an empty buffer, which is "read" without a system call (a hit with no bytes).  A dangling symlink: `NotFound`. -/
+def cReadPartial (dirs : List Path) (c : CD) (t : FileType) (id : Name) (off len : Nat) : PRes :=
+  if parentObj c t id = some true then .error       -- `File::open`: `ENOTDIR`
+  else if parentObj c t id = some false then .miss  -- `ENOENT`
+  else if hasDir dirs (cpath t id) then (if len = 0 then .hit [] else .error)
+  else match entryBytes c (cpath t id) with
+    | none => .miss
+    | some d => if len = 0 ∨ off + len ≤ d.length then .hit ((d.drop off).take len) else .error
+
+/-- `Cache::write_bytes` with nothing in the way: write `<hex>-tmp-`, rename to `<hex>`. -/
+def cWriteFile (c : FS) (t : FileType) (id : Name) (d : Bytes) : FS :=
   fput (fdel (fput c (ctmp t id) d) (ctmp t id)) (cpath t id) d
 
-def cRemove (c : FS) (t : FileType) (id : Name) : FS := fdel c (cpath t id)
+/-- `Cache::write_bytes` (every caller only logs its error):
+* a regular file or a dangling symlink where `<type>` or `<type>/<xx>` belongs — `create_dir_all` fails: nothing changes;
+* a directory at the temp path — `open` fails (`EISDIR`), the clean-up `remove_file` too: nothing changes;
+* a dangling symlink at the temp path — `open(create)` follows it and fails (`ENOENT`), the clean-up `remove_file`
+  **removes the link**: nothing written this time;
+* a symlink to a file at the temp path — `open(truncate)` follows it: **the file it points to is overwritten**, then the
+  LINK is renamed onto the entry path: the entry is now that link (or, with a directory at the entry path, stays at the
+  temp path);
+* a directory at the entry path — the temp file is written, `rename` onto the directory fails and the temp file **stays**
+  (no clean-up after a failed rename);
+* otherwise the entry is (re)placed — `rename` replaces a symlink at the entry path like a file. -/
+def cWrite (dirs : List Path) (c : CD) (t : FileType) (id : Name) (d : Bytes) : CD :=
+  if (parentObj c t id).isSome then c     -- `create_dir_all(<type>/<xx>)` fails
+  else if hasDir dirs (ctmp t id) then c
+  else match lget c.links (ctmp t id) with
+    | some none => unlink c (ctmp t id)
+    | some (some _) =>
+      if hasDir dirs (cpath t id) then { c with links := (ctmp t id, some d) :: ldel c.links (ctmp t id) }
+      else { files := fdel c.files (cpath t id),
+             links := (cpath t id, some d) :: ldel (ldel c.links (ctmp t id)) (cpath t id) }
+    | none =>
+      if hasDir dirs (cpath t id) then { c with files := fput c.files (ctmp t id) d }
+      else { files := cWriteFile c.files t id d, links := ldel c.links (cpath t id) }
 
-def cEntry (L : Nat) (t : FileType) (e : Path × Bytes) : Option (Name × Nat) :=
+/-- `Cache::remove`: `fs::remove_file` — fails on a directory (`EISDIR`) and below a non-directory (nothing changes);
+removes a regular file or a symlink. -/
+def cRemove (dirs : List Path) (c : CD) (t : FileType) (id : Name) : CD :=
+  if (parentObj c t id).isSome || hasDir dirs (cpath t id) then c
+  else { files := fdel c.files (cpath t id), links := ldel c.links (cpath t id) }
+
+/-- a regular file that is a cache entry: name and place right, nothing else at / above that path -/
+def cEntry (L : Nat) (dirs : List Path) (c : CD) (t : FileType) (e : Path × Bytes) : Option (Name × Nat) :=
   match e.1 with
-  | [d, sub, n] => if d = t.dirname ∧ isCacheName L n = true ∧ sub = n.take 2 then some (n, e.2.length) else none
+  | [d, sub, n] =>
+    if d = t.dirname ∧ isCacheName L n = true ∧ sub = n.take 2 ∧ hasDir dirs e.1 = false ∧ hasLink c e.1 = false
+        ∧ parentObj c t n = none
+    then some (n, e.2.length) else none
   | _ => none
 
-def cList (L : Nat) (c : FS) (t : FileType) : List (Name × Nat) := c.filterMap (cEntry L t)
+/-- a symlink that is a cache entry (**fix**: the listing follows symlinks, as the reads do): it resolves to a regular
+file; its size is that file's.  A dangling symlink is no entry (walkdir reports an error for it, which is only logged). -/
+def cLinkEntry (L : Nat) (dirs : List Path) (c : CD) (t : FileType) (e : Path × Option Bytes) : Option (Name × Nat) :=
+  match e.1, e.2 with
+  | [d, sub, n], some b =>
+    if d = t.dirname ∧ isCacheName L n = true ∧ sub = n.take 2 ∧ hasDir dirs e.1 = false
+        ∧ lget c.links e.1 = some (some b) ∧ parentObj c t n = none
+    then some (n, b.length) else none
+  | _, _ => none
+
+def cList (L : Nat) (dirs : List Path) (c : CD) (t : FileType) : List (Name × Nat) :=
+  c.files.filterMap (cEntry L dirs c t) ++ c.links.filterMap (cLinkEntry L dirs c t)
 
 def sizeOf? (list : List (Name × Nat)) (id : Name) : Option Nat :=
   match list with
@@ -71,17 +199,19 @@ def sizeOf? (list : List (Name × Nat)) (id : Name) : Option Nat :=
 
 def keepEntry (list : List (Name × Nat)) (e : Name × Nat) : Bool := sizeOf? list e.1 == some e.2
 
-def removeAll (c : FS) (t : FileType) : List (Name × Nat) → FS
+def removeAll (dirs : List Path) (c : CD) (t : FileType) : List (Name × Nat) → CD
   | [] => c
-  | e :: rest => removeAll (cRemove c t e.1) t rest
+  | e :: rest => removeAll dirs (cRemove dirs c t e.1) t rest
 
-def removeNotInList (L : Nat) (c : FS) (t : FileType) (list : List (Name × Nat)) : FS :=
-  removeAll c t ((cList L c t).filter (fun e => !keepEntry list e))
+def removeNotInList (L : Nat) (dirs : List Path) (c : CD) (t : FileType) (list : List (Name × Nat)) : CD :=
+  removeAll dirs c t ((cList L dirs c t).filter (fun e => !keepEntry list e))
 
-/-- repository (an exact map, C20) + cache directory -/
+/-- repository (an exact map, C20) + cache directory: regular files and dangling symlinks `cache`, directories planted
+at `dirs` -/
 structure St where
   be : SpecMap
-  cache : FS
+  cache : CD
+  dirs : List Path := []
 
 def beReadFull (be : SpecMap) (t : FileType) (id : Name) : Res Bytes :=
   match be (t, id) with
@@ -94,39 +224,47 @@ def beReadPartial (be : SpecMap) (t : FileType) (id : Name) (off len : Nat) : Re
   | some d => if off + len ≤ d.length then .ok ((d.drop off).take len) else .err
   | none => .err
 
+/-- `read_full` after the cache did not answer: the backend's answer; a successful one is written to the cache -/
+def readFullThrough (s : St) (t : FileType) (id : Name) : Res Bytes × St :=
+  match s.be (t, id) with
+  | some d => (.ok d, { s with cache := cWrite s.dirs s.cache t id d })
+  | none => (.err, s)
+
 def readFull (s : St) (t : FileType) (id : Name) : Res Bytes × St :=
   if isCacheable t then
-    match cReadFull s.cache t id with
-    | some d => (.ok d, s)
-    | none =>
-      match s.be (t, id) with
-      | some d => (.ok d, { s with cache := cWrite s.cache t id d })
-      | none => (.err, s)
+    match cReadFull s.dirs s.cache t id with
+    | .hit d => (.ok d, s)
+    | .miss => readFullThrough s t id
+    | .error => readFullThrough s t id      -- `Err(err) => warn!(…)`: logged, then like a miss
   else (beReadFull s.be t id, s)
+
+/-- `read_partial` after the cache did not answer: whole file from the backend, written to the cache, then sliced -/
+def readPartialThrough (s : St) (t : FileType) (id : Name) (off len : Nat) : Res Bytes × St :=
+  match s.be (t, id) with
+  | some d =>
+    let s' := { s with cache := cWrite s.dirs s.cache t id d }
+    if off + len ≤ d.length then (.ok ((d.drop off).take len), s') else (.err, s')
+  | none => (.err, s)
 
 def readPartial (s : St) (t : FileType) (id : Name) (cacheable : Bool) (off len : Nat) : Res Bytes × St :=
   if cacheable || isCacheable t then
-    match cReadPartial s.cache t id off len with
+    match cReadPartial s.dirs s.cache t id off len with
     | .hit b => (.ok b, s)
-    | _ =>
-      match s.be (t, id) with
-      | some d =>
-        let s' := { s with cache := cWrite s.cache t id d }
-        if off + len ≤ d.length then (.ok ((d.drop off).take len), s') else (.err, s')
-      | none => (.err, s)
+    | .miss => readPartialThrough s t id off len
+    | .error => readPartialThrough s t id off len   -- logged, then like a miss
   else (beReadPartial s.be t id off len, s)
 
 def writeBytes (s : St) (t : FileType) (id : Name) (cacheable : Bool) (d : Bytes) : St :=
-  { be := s.be.write (t, id) d,
-    cache := if cacheable || isCacheable t then cWrite s.cache t id d else s.cache }
+  { s with be := s.be.write (t, id) d,
+           cache := if cacheable || isCacheable t then cWrite s.dirs s.cache t id d else s.cache }
 
 def remove (s : St) (t : FileType) (id : Name) (cacheable : Bool) : St :=
-  { be := s.be.remove (t, id),
-    cache := if cacheable || isCacheable t then cRemove s.cache t id else s.cache }
+  { s with be := s.be.remove (t, id),
+           cache := if cacheable || isCacheable t then cRemove s.dirs s.cache t id else s.cache }
 
 /-- `list` is the backend's answer, returned unchanged; the cache is cleaned for cacheable types -/
 def listWithSize (L : Nat) (s : St) (t : FileType) (list : List (Name × Nat)) : St :=
-  { s with cache := if isCacheable t then removeNotInList L s.cache t list else s.cache }
+  { s with cache := if isCacheable t then removeNotInList L s.dirs s.cache t list else s.cache }
 
 end Rustic.Cache
 
